@@ -294,7 +294,6 @@ type StoreWrite struct {
 	Pos   token.Pos
 }
 
-var storeWritesCache []*StoreWrite
 
 func isKVStoreIface(t types.Type) bool {
 	s := typeStr(t)
@@ -303,8 +302,8 @@ func isKVStoreIface(t types.Type) bool {
 
 // StoreWrites enumerates every KVStore.Set/Delete call in state-machine scope.
 func (p *Program) StoreWrites() []*StoreWrite {
-	if storeWritesCache != nil {
-		return storeWritesCache
+	if p.storeWritesCache != nil {
+		return p.storeWritesCache
 	}
 	var out []*StoreWrite
 	for fn := range p.AllFuncs {
@@ -340,7 +339,7 @@ func (p *Program) StoreWrites() []*StoreWrite {
 		}
 	}
 	sort.Slice(out, func(i, j int) bool { return p.Pos(out[i].Pos) < p.Pos(out[j].Pos) })
-	storeWritesCache = out
+	p.storeWritesCache = out
 	return out
 }
 
@@ -400,11 +399,10 @@ type StoreRead struct {
 	Pos  token.Pos
 }
 
-var storeReadsCache []*StoreRead
 
 func (p *Program) StoreReads() []*StoreRead {
-	if storeReadsCache != nil {
-		return storeReadsCache
+	if p.storeReadsCache != nil {
+		return p.storeReadsCache
 	}
 	var out []*StoreRead
 	for fn := range p.AllFuncs {
@@ -453,6 +451,6 @@ func (p *Program) StoreReads() []*StoreRead {
 		}
 	}
 	sort.Slice(out, func(i, j int) bool { return p.Pos(out[i].Pos) < p.Pos(out[j].Pos) })
-	storeReadsCache = out
+	p.storeReadsCache = out
 	return out
 }
